@@ -85,10 +85,10 @@ extern "C" int harness_main() {
     (void)schemas();  // concrete set-up shared by all shapes
     int shape = ONLY_SHAPE >= 0 ? ONLY_SHAPE : verif_choice("shape", 5);
     switch (shape) {
-        case 0: verif_reach("shape_tss"); return shape_tss::run();
-        case 1: verif_reach("shape_tsd"); return shape_tsd::run();
-        case 2: verif_reach("shape_tsl"); return shape_tsl::run();
-        case 3: verif_reach("shape_tsb"); return shape_tsb::run();
-        default: verif_reach("shape_tsw"); return shape_tsw::run();
+        case 0: shape_tss::g_reach.mark("shape_tss"); return shape_tss::run();
+        case 1: shape_tsd::g_reach.mark("shape_tsd"); return shape_tsd::run();
+        case 2: shape_tsl::g_reach.mark("shape_tsl"); return shape_tsl::run();
+        case 3: shape_tsb::g_reach.mark("shape_tsb"); return shape_tsb::run();
+        default: shape_tsw::g_reach.mark("shape_tsw"); return shape_tsw::run();
     }
 }
